@@ -15,6 +15,7 @@
 package netpoll
 
 import (
+	"unsafe"
 	"runtime"
 	"sync/atomic"
 )
@@ -59,35 +60,44 @@ type locker struct {
 }
 
 func (l *locker) closeBy(w who) (success bool) {
+	vp(vpCloseBy, unsafe.Pointer(l), int64(w), 0)
 	return atomic.CompareAndSwapInt32(&l.keychain[closing], 0, w)
 }
 
 func (l *locker) isCloseBy(w who) (yes bool) {
+	vp(vpStatus, unsafe.Pointer(l), int64(closing), 0)
 	return atomic.LoadInt32(&l.keychain[closing]) == w
 }
 
 func (l *locker) status(k key) int32 {
+	vp(vpStatus, unsafe.Pointer(l), int64(k), 0)
 	return atomic.LoadInt32(&l.keychain[k])
 }
 
 func (l *locker) force(k key, v int32) {
+	vp(vpForce, unsafe.Pointer(l), int64(k), int64(v))
 	atomic.StoreInt32(&l.keychain[k], v)
 }
 
 func (l *locker) lock(k key) (success bool) {
+	vp(vpLock, unsafe.Pointer(l), int64(k), 0)
 	return atomic.CompareAndSwapInt32(&l.keychain[k], 0, 1)
 }
 
 func (l *locker) unlock(k key) {
+	vp(vpUnlock, unsafe.Pointer(l), int64(k), 0)
 	atomic.StoreInt32(&l.keychain[k], 0)
 }
 
 func (l *locker) stop(k key) {
+	vp(vpStopSpin, unsafe.Pointer(l), int64(k), 0)
 	for !atomic.CompareAndSwapInt32(&l.keychain[k], 0, 2) && atomic.LoadInt32(&l.keychain[k]) != 2 {
+		vp(vpStopSpin, unsafe.Pointer(l), int64(k), 1)
 		runtime.Gosched()
 	}
 }
 
 func (l *locker) isUnlock(k key) bool {
+	vp(vpIsUnlock, unsafe.Pointer(l), int64(k), 0)
 	return atomic.LoadInt32(&l.keychain[k]) == 0
 }
